@@ -351,3 +351,135 @@ func caseDesc(ks []int64) string {
 	}
 	return strings.Join(out, ",")
 }
+
+// C01/R4 literal-equality table.
+//
+// js_ast.CheckEqualityIfNoSideEffects folds `a == b`, `a != b`, `a === b`, `a !== b` of two literals
+// at parse time, even without minification. It only looks at the kinds of the two literals, at
+// the equality kind and — where it has to — at their values, so for each of the 6×6×2
+// (kind, kind, loose/strict) combinations its behaviour is extracted from the SSA form with E-ENUM
+// (the dynamic types of both operands and the equality kind are preset, every type test is then
+// decided; tests on the literal values fork). ECMAScript (IsLooselyEqual / IsStrictlyEqual,
+// ECMA-262 §7.2.13-15) gives for each combination either a constant answer or an answer that
+// depends on the values:
+//   same kind: null, undefined -> true; boolean, number, bigint, string -> depends on the values
+//   null vs undefined: loose true, strict false
+//   null / undefined vs anything else: false
+//   two different non-nullish kinds: strict false; loose DEPENDS on the values (1n == 1, 0 == "", 1 == true)
+// Whenever the function claims to know the answer (ok = true), the answer must be that constant,
+// and where the answer depends on the values it must not be a constant.
+var c01LiteralKinds = []string{"ENull", "EUndefined", "EBoolean", "ENumber", "EBigInt", "EString"}
+
+func c01LiteralEquality(p *Prog) *RuleResult {
+	r := NewRule("C01/R4 literal-equality-table", "for every pair of literal kinds and both equality kinds, CheckEqualityIfNoSideEffects claims a known result only where ECMAScript's IsLooselyEqual / IsStrictlyEqual gives one, and a constant result only where the result does not depend on the literal values")
+	fn := p.FindFunc("js_ast.CheckEqualityIfNoSideEffects")
+	if !r.Anchor("js_ast.CheckEqualityIfNoSideEffects", fn != nil) {
+		return r
+	}
+	pk := p.ByPath[modPath+"/internal/js_ast"]
+	ek := constsOfType(pk.Types, "EqualityKind")
+	loose, okL := ek["LooseEquality"]
+	strict, okS := ek["StrictEquality"]
+	if !r.Anchor("js_ast.LooseEquality / StrictEquality", okL && okS) || !r.Anchor("parameters left, right, kind", len(fn.Params) == 3) {
+		return r
+	}
+	isLit := map[string]bool{}
+	for _, k := range c01LiteralKinds {
+		isLit[k] = true
+	}
+	nullish := func(k string) bool { return k == "ENull" || k == "EUndefined" }
+	for _, L := range c01LiteralKinds {
+		for _, R := range c01LiteralKinds {
+			for _, K := range []string{"loose", "strict"} {
+				r.Instances++
+				kv := loose
+				if K == "strict" {
+					kv = strict
+				}
+				// expected: "T", "F" or "V" (depends on the values)
+				exp := ""
+				switch {
+				case L == R && nullish(L):
+					exp = "T"
+				case L == R:
+					exp = "V"
+				case nullish(L) && nullish(R):
+					if K == "loose" {
+						exp = "T"
+					} else {
+						exp = "F"
+					}
+				case nullish(L) || nullish(R):
+					exp = "F"
+				case K == "strict":
+					exp = "F"
+				default:
+					exp = "V"
+				}
+				cfg := &enumCfg{
+					recursive: map[string]bool{}, inlined: map[string]func() []enumOutcome{}, lenient: true, opConsts: map[int64]string{},
+					presetKinds:  map[string]string{fn.Params[0].Name(): L, fn.Params[1].Name(): R},
+					presetParams: map[string]int64{fn.Params[2].Name(): kv},
+					knownCalls: map[string]func(func(ssa.Value) (string, bool), *ssa.Call) (int64, bool){
+						"js_ast.IsPrimitiveLiteral": func(kindOf func(ssa.Value) (string, bool), c *ssa.Call) (int64, bool) {
+							if len(c.Call.Args) != 1 {
+								return 0, false
+							}
+							if k, ok := kindOf(c.Call.Args[0]); ok {
+								if isLit[k] {
+									return 1, true
+								}
+								return 0, true
+							}
+							return 0, false
+						},
+					},
+				}
+				outs, problems := enumEvaluate(p, fn, cfg)
+				key := fmt.Sprintf("%s %s %s", strings.TrimPrefix(L, "E"), map[string]string{"loose": "==", "strict": "==="}[K], strings.TrimPrefix(R, "E"))
+				if len(problems) > 0 {
+					r.Fail(key, p.Pos(fn.Pos()), "cannot extract the behaviour of this combination: "+problems[0])
+					continue
+				}
+				bad := ""
+				claims := 0
+				for _, o := range outs {
+					if len(o.results) != 2 {
+						bad = "unexpected result arity"
+						break
+					}
+					eq, ok := o.results[0], o.results[1]
+					if ok.known && ok.val == 0 {
+						continue // declines: always sound
+					}
+					claims++
+					switch exp {
+					case "T", "F":
+						want := int64(0)
+						if exp == "T" {
+							want = 1
+						}
+						if !eq.known {
+							// a computed answer where a constant is expected: not decided here
+							continue
+						}
+						if eq.val != want {
+							bad = fmt.Sprintf("claims the result is %v, ECMAScript says %v", eq.val != 0, want != 0)
+						}
+					case "V":
+						if eq.known {
+							bad = fmt.Sprintf("claims the constant result %v although the result depends on the two values (e.g. 1n == 1, 0 == \"\", 1 == true are true)", eq.val != 0)
+						}
+					}
+				}
+				if bad != "" {
+					r.Fail(key, p.Pos(fn.Pos()), "the parse-time equality fold is wrong for this combination of literal kinds: "+bad)
+				} else {
+					r.OK(key, claims > 0, fmt.Sprintf("%d path(s), %d claim a result, expected %s", len(outs), claims, map[string]string{"T": "true", "F": "false", "V": "value-dependent"}[exp]))
+				}
+			}
+		}
+	}
+	r.Floor(72)
+	return r
+}
